@@ -28,6 +28,8 @@ Case = (prog ops).
   expr : (0 z) | (1 j) get | (2 j) get_untracked | (3 e) untrack | (4 a b) + | (5 a b) < | (6 c a b) if | (7 s e) set
          | (8 e j) selector e .selected(key of its j-th trigger)
          | (9 k) create the node of template k (only as a prefix of a body: (4 (9 k) rest)); value 0
+         | (10 j) Owner::on_cleanup(move || { signal_j.get(); }) in an effect body: value 0, no event (the model reads it as
+           the constant 0): what a cleanup callback reads is never a reason to run
   op   : (0 s v) set | (1 s) notify | (2 n) read | (3 k) poll k-th ready | (4) run to idle
          | (5 e) pause | (6 e) resume: Owner::pause / resume on the owner effect e was created under (reaches e and
            every effect below it) | (7 e) dispose: the RenderEffect handles of that subtree are dropped, then the
@@ -376,6 +378,10 @@ def valid_refs(prog, i, e, scope=frozenset()):
         return 0 <= e[1] < i and prog[e[1]][0] == SEL and 0 <= e[2] < len(prog[e[1]][5])
     if k == 9:
         return False       # only as the prefix of a body
+    if k == 10:
+        nd = prog[i][1] if prog[i][0] == TPL else prog[i]
+        return (nd[0] == EFF and nd[1] in (0, 1, 2, 3, 4) and 0 <= e[1] < i and prog[e[1]][0] == SIG
+                and prog[e[1]][1] in (0, 1, 2, 4))
     return True
 
 
@@ -426,7 +432,7 @@ def valid_expr(e, depth=0):
         return len(e) == 3 and isinstance(e[1], int) and valid_expr(e[2], depth + 1)
     if k == 8:
         return len(e) == 3 and isinstance(e[1], int) and isinstance(e[2], int)
-    if k == 9:
+    if k in (9, 10):
         return len(e) == 2 and isinstance(e[1], int)
     return False
 
@@ -957,6 +963,42 @@ def add_streams(rng, prog, p=0.5):
     return prog
 
 
+def add_cleanups(rng, prog, p=0.5):
+    """effect bodies register an on_cleanup callback that reads a signal, preferably one the body does not read"""
+    memo = {}
+    for e, nd in enumerate(prog):
+        if nd[0] != EFF or nd[1] not in (0, 1, 2, 3, 4) or rng.random() >= p or has_create(nd[2]):
+            continue
+        sigs = [j for j in range(e) if prog[j][0] == SIG and prog[j][1] in (0, 1, 2, 4)]
+        other = [j for j in sigs if j not in cone(prog, e, memo)]
+        if not sigs:
+            continue
+        j = rng.choice(other) if other and rng.random() < 0.85 else rng.choice(sigs)
+        nd[2] = [4, nd[2], [10, j]] if rng.random() < 0.5 else [4, [10, j], nd[2]]
+    return prog
+
+
+def gen_cleanup_case(rng):
+    """an effect (watch dependency fn) reads a; its cleanup callback reads b; the history re-runs the effect, then
+    writes b: nothing may run"""
+    prog = [[0, rng.choice([0, 1, 2, 4]), rng.randint(0, 3)], [0, rng.choice([0, 1, 2, 4]), rng.randint(0, 3)]]
+    if rng.random() < 0.4:
+        prog.append([1, 0, rng.randint(0, 1), [1, 0]])
+    src = len(prog) - 1 if len(prog) > 2 else 0
+    kind = rng.choice([0, 0, 1, 2, 3, 4])
+    body = [4, [1, src], [10, 1]] if rng.random() < 0.5 else [4, [10, 1], [1, src]]
+    prog.append([3, kind, body, [2, 0] if kind in (2, 3) and rng.random() < 0.5 else [0, 0]])
+    if rng.random() < 0.5:
+        add_variants(rng, prog, 0.6)
+    ops = [[4]]
+    for _ in range(rng.randint(2, 6)):
+        r = rng.random()
+        ops.append([0, 0, rng.randint(0, 5)] if r < 0.5 else ([0, 1, rng.randint(0, 5)] if r < 0.9 else [1, 1]))
+        ops.append([4] if rng.random() < 0.8 else [3, 0])
+    ops += [[0, 0, 6], [4], [0, 1, 6], [4], [0, 1, 7], [4]]
+    return with_flags(rng, prog, ops, 0.2)
+
+
 def with_flags(rng, prog, ops, p=0.3):
     """the case, in a part of the cases with flags (fresh waker per poll, untrack_with_diagnostics)"""
     if rng.random() < p:
@@ -1375,6 +1417,8 @@ class Walker:
         if k == 9:
             self.create(who, e[1])
             return 0
+        if k == 10:
+            return 0
         if k == 1:
             return self.read(who, self.resolve(e[1]), True, untr)
         if k == 2:
@@ -1575,6 +1619,8 @@ class Truth:
         k = e[0]
         if k == 0:
             return e[1]
+        if k == 10:
+            return 0
         if k == 9:
             if st is not None:
                 st.setdefault("env", {})[e[1]] = ("fresh", dict(st.get("env", {})))
@@ -1655,6 +1701,8 @@ class Truth:
         k = e[0]
         if k == 0:
             return e[1]
+        if k == 10:
+            return 0
         if k in (1, 2):
             nd = self.w.prog[e[1]]
             if nd[0] == DER:
@@ -1975,6 +2023,47 @@ class C02Hooks(Hooks):
                 return
 
 
+class NarrowD(Hooks):
+    """does the run contain the failing shape of F-C02-d?  An effect (or watch dependency fn) reads memo j with
+    tracking, then writes a signal j depends on, then j is pulled AGAIN inside the same run (by the effect itself or
+    by a memo it pulls)."""
+
+    def __init__(self):
+        self.fail = None
+        self.hit = False
+        self.st = {}          # effect -> {"reads": memos read in the running run, "armed": those written under}
+
+    def start(self, w, i, handler):
+        if w.prog[i][0] == EFF and not handler:
+            self.st[i] = {"reads": set(), "armed": set()}
+
+    def enclosing(self, w):
+        for (i, h) in reversed(w.running):
+            if w.prog[i][0] == EFF:
+                return i
+        return None
+
+    def read(self, w, who, j, v, t):
+        e = self.enclosing(w)
+        if e is None or e not in self.st or w.prog[j][0] != MEMO:
+            return
+        st = self.st[e]
+        if j in st["armed"]:
+            self.hit = True
+        if who == e and t:
+            st["reads"].add(j)
+
+    def write(self, w, s, who):
+        e = self.enclosing(w)
+        if e is None or e not in self.st:
+            return
+        st = self.st[e]
+        memo = {}
+        for j in st["reads"]:
+            if s in cone(w.prog[:w.nstatic], j, memo) if j < w.nstatic else False:
+                st["armed"].add(j)
+
+
 def run_oracle(item, impl, hooks):
     """walk the implementation's trace with the given hooks; returns a failure message or None"""
     if isinstance(impl, str):
@@ -2036,6 +2125,8 @@ def show_expr(e):
         return "n%d.selected(key#%d)" % (e[1], e[2])
     if k == 9:
         return "create(n%d)" % e[1]
+    if k == 10:
+        return "on_cleanup(|| n%d.get())" % e[1]
     return "?"
 
 
